@@ -242,8 +242,8 @@ class ServerRun:
             kw["decompress_request"] = True
         if cfg.get("btimeout"):
             kw["body_timeout"] = 10
-        if chunk_size:
-            kw["chunk_size"] = chunk_size
+        if chunk_size or cfg.get("decompress"):
+            kw["chunk_size"] = chunk_size or 16      # small, so that the decompress loop iterates
         override = cfg.get("override", NONE)
         self.log = LogCapture()
         self.log.__enter__()
@@ -344,6 +344,8 @@ class Expect:
         self.rej = "none"
         self.gzflux = False
         self.gzdec = []
+        self.gzover = False
+        self.maxb = 0
 
     def copy(self):
         e = Expect()
@@ -365,6 +367,8 @@ class Expect:
         self.rej = entry["rej"]
         self.gzflux = entry.get("gzflux", False)
         self.gzdec = entry.get("gzdec", [])
+        self.gzover = entry.get("gzover", False)
+        self.maxb = entry.get("maxb", 0)
         return self
 
 
@@ -380,15 +384,33 @@ def _msg_eq(e, o):
     return e["sl"] == o["sl"] and e["hs"] == o["hs"] and e["body"] == o["body"] and e["end"] == o["end"]
 
 
+def _flux_eq(exp, e, o, end):
+    """the gzip message in flight (or refused for its decoded size): how much of the decoded content
+    has been handed over is the codec's business; it is a prefix of it, within the limit"""
+    return (e["sl"] == o["sl"] and e["hs"] == o["hs"] and o["end"] == end and
+            o["body"] == exp.gzdec[:len(o["body"])] and len(o["body"]) <= exp.maxb)
+
+
+def _out_ok(exp_out, rej, obs_out):
+    if rej:
+        base = [c for c in exp_out if c != 400]
+        return obs_out in (base, base + [400])
+    return obs_out == exp_out
+
+
 def compare_server(exp, obs, complete_only=False):
     """None if the observed projection is one the specification allows, else a short reason.
-    Permissive points (DESIGN 5.C01): a refusal answers 400 or just closes; the headers of a message
+    Permissive points (DESIGN 5.C01/C04): a refusal answers 400 or just closes; the headers of a message
     refused for its framing / size may or may not have reached the application before the close;
-    while a gzip body is in flight only 'a prefix of the decoded content, within the limit' is fixed."""
+    while a gzip body is in flight only 'a prefix of the decoded content, within the limit' is fixed,
+    and a body that will exceed the limit may be refused as soon as the decoder notices."""
     em = exp.msgs
     om = obs["msgs"]
     if complete_only:
         em = [m for m in em if m["end"] == "F"]
+        flux = False
+    else:
+        flux = exp.gzflux and len(em) > 0 and em[-1]["end"] != "F"
     alts = [em]
     if em and em[-1].get("opt") and not complete_only:
         alts.append(em[:-1])
@@ -396,17 +418,20 @@ def compare_server(exp, obs, complete_only=False):
     for a in alts:
         if len(a) == len(om) and all(_msg_eq(x, y) for x, y in zip(a, om)):
             ok = True
-    if not ok and exp.gzflux and len(em) == len(om) and all(_msg_eq(x, y) for x, y in zip(em[:-1], om[:-1])):
-        e, o = em[-1], om[-1]
-        if e["sl"] == o["sl"] and e["hs"] == o["hs"] and o["body"] == exp.gzdec[:len(o["body"])]:
+    if not ok and flux and len(em) == len(om) and all(_msg_eq(x, y) for x, y in zip(em[:-1], om[:-1])):
+        if _flux_eq(exp, em[-1], om[-1], em[-1]["end"]):
             ok = True
+        elif exp.gzover and not exp.closed and _flux_eq(exp, em[-1], om[-1], "C"):
+            # refused early: the decoder already produced more than the limit allows
+            if obs["closed"] and _out_ok(exp.out, True, obs["out"]) and not obs["logs"] and not obs["errors"]:
+                return None
+            return "early-refusal"
+    if complete_only and exp.gzflux and exp.gzover and not exp.closed and obs["closed"] and \
+            len(em) == len(om) and all(_msg_eq(x, y) for x, y in zip(em, om)) and _out_ok(exp.out, True, obs["out"]):
+        return None if not obs["logs"] and not obs["errors"] else "logs"
     if not ok:
         return "msgs"
-    if exp.rej != "none":
-        base = [c for c in exp.out if c != 400]
-        if obs["out"] not in (base, base + [400]):
-            return "out"
-    elif obs["out"] != exp.out:
+    if not _out_ok(exp.out, exp.rej != "none", obs["out"]):
         return "out"
     if obs["closed"] != exp.closed:
         return "closed"
@@ -418,7 +443,8 @@ def compare_server(exp, obs, complete_only=False):
 
 
 def exp_json(exp):
-    return {"msgs": exp.msgs, "out": exp.out, "closed": exp.closed, "rej": exp.rej}
+    return {"msgs": exp.msgs, "out": exp.out, "closed": exp.closed, "rej": exp.rej, "gzflux": exp.gzflux,
+            "gzover": exp.gzover, "maxb": exp.maxb, "gzdec_len": len(exp.gzdec)}
 
 
 def run_server_schedule(cfg, wire, chunks, trail, eofs, mode="delegate", eof_after=None, env=None):
@@ -456,11 +482,11 @@ def run_server_schedule(cfg, wire, chunks, trail, eofs, mode="delegate", eof_aft
         run.close()
 
 
-def record_server_trace(tid, cfg, wire, pieces, script=(), mode="delegate"):
+def record_server_trace(tid, cfg, wire, pieces, script=(), mode="delegate", chunk_size=None):
     """Run the real server over `wire` split into `pieces` (lengths) and record one trace for
     Trace_HttpReader.  `script`: extra events interleaved, as (after_piece_index, act) with act in
     eof / respond / timeout / shutdown (applied when enabled in the real run)."""
-    run = ServerRun(cfg, mode=mode)
+    run = ServerRun(cfg, mode=mode, chunk_size=chunk_size)
     ev = []
     try:
         pos = 0
